@@ -282,13 +282,16 @@ func runCase(rt *rapid.T, c *stats.Case) {
 	fs := newFstore(inner0)
 	n0 := node.New(e.newState, fs, u.Net)
 	commitsAfter := make([]int, len(ops))
+	writesAfter := make([]int, len(ops))
 	for i, o := range ops {
 		if err := apply(n0, o); err != nil {
 			c.Violation("op-failed-without-fault", "op %d %s failed without any fault: %v", i, o, err)
 		}
 		commitsAfter[i] = fs.Commits
+		writesAfter[i] = fs.Writes
 	}
 	W := fs.Commits
+	WR := fs.Writes
 	final := e.observe(n0)
 	if d := node.Diff(final, e.ref(worlds[len(ops)-1]), 5); len(d) > 0 {
 		c.Violation("uninterrupted-run-differs-from-reference", "node after the uninterrupted script differs from a node that stored the final chain directly:\n%v", d)
@@ -498,6 +501,112 @@ func runCase(rt *rapid.T, c *stats.Case) {
 			}
 		}()
 	}
+	// ================= (c) ONE write into a batch fails (the m-th Put / Delete / DeleteRange staged during the script returns an
+	// error and stages nothing); the SAME Blockchain object continues. Whatever the call returns, the node must be the chain
+	// before the op or the chain after it - and the chain before it when the call reported the failure.
+	var ms []int
+	if WR > 0 {
+		seenM := map[int]bool{}
+		nm := 2 // TestPropFailedWriteInsideOp enumerates all writes of one op; here the faults meet Pebble, the base chain and long-lived objects
+		if stats.Thorough() {
+			nm = min(WR, 60)
+		}
+		if e.pebble || e.baseN > 0 {
+			nm = min(nm, 1)
+		}
+		// half of the points inside store / revert ops (the ops with the most writes), the others anywhere
+		var heavy []int
+		for i, o := range ops {
+			if o.kind == "store" || o.kind == "revert" {
+				heavy = append(heavy, i)
+			}
+		}
+		for tries := 0; len(ms) < min(nm, WR) && tries < 4*nm; tries++ {
+			m := 0
+			if len(heavy) > 0 && tries%2 == 0 {
+				i := heavy[rapid.IntRange(0, len(heavy)-1).Draw(rt, "heavyOp")]
+				lo := 1
+				if i > 0 {
+					lo = writesAfter[i-1] + 1
+				}
+				if writesAfter[i] < lo {
+					continue
+				}
+				m = rapid.IntRange(lo, writesAfter[i]).Draw(rt, "mInOp")
+			} else {
+				m = rapid.IntRange(1, WR).Draw(rt, "m")
+			}
+			if !seenM[m] {
+				seenM[m] = true
+				ms = append(ms, m)
+			}
+		}
+	}
+	for _, m := range ms {
+		i := len(ops) - 1
+		for j, wa := range writesAfter {
+			if m <= wa {
+				i = j
+				break
+			}
+		}
+		c.Info("write-fault-points")
+		func() {
+			inner, done := e.freshStore()
+			defer done()
+			fs := newFstore(inner)
+			fs.FailWriteAt = m
+			nd := node.New(e.newState, fs, u.Net)
+			var failedErr error
+			reached := -1
+			for j := 0; j < len(ops) && !fs.FailedWrite; j++ {
+				err := apply(nd, ops[j])
+				if fs.FailedWrite {
+					failedErr, reached = err, j
+				} else if err != nil {
+					stats.HarnessError("op %d failed before the write-fault point: %v", j, err)
+				}
+			}
+			if reached < 0 {
+				// the number of writes of a run is not a function of the script alone (map iteration decides what is skipped as
+				// unchanged): the point lies past the end of this run
+				c.Label("write-fault-point-not-reached")
+				return
+			}
+			i = reached
+			c.Labelf("write-fault-in-%s", ops[i].kind)
+			if ops[i].kind == "graceful" {
+				nd.Reopen() // apply() returned before reopening
+			}
+			got := e.observe(nd)
+			dbf, daf := node.Diff(got, e.ref(before(i)), 5), node.Diff(got, e.ref(worlds[i]), 5)
+			if failedErr != nil && len(dbf) > 0 {
+				c.Violation("memory-disagrees-with-disk-after-failed-write", "write %d (key %x) failed during op %d %s (%s backend) and the call returned %q; the same Blockchain object now differs from the chain before the op:\n%v", m, fs.FailedKey, i, ops[i], nd.Backend(), failedErr, dbf)
+			}
+			if failedErr == nil && len(daf) > 0 {
+				if len(dbf) == 0 {
+					c.Violation("failed-write-not-reported", "write %d (key %x) failed during op %d %s (%s backend); the call returned nil although nothing of the op took effect", m, fs.FailedKey, i, ops[i], nd.Backend())
+				}
+				c.Violation("failed-write-swallowed", "write %d (key %x) failed during op %d %s (%s backend); the call returned nil and the node is neither the chain before the op nor the chain after it.\n vs before: %v\n vs after: %v", m, fs.FailedKey, i, ops[i], nd.Backend(), dbf, daf)
+			}
+			if ops[i].kind == "store" || ops[i].kind == "revert" {
+				c.NonTrivial("failed-write-inside-store-or-revert")
+			}
+			next := i
+			if failedErr == nil {
+				next = i + 1
+				c.Label("failed-write-tolerated-by-the-op")
+			}
+			for j := next; j < len(ops); j++ {
+				if err := apply(nd, ops[j]); err != nil {
+					c.Violation("retry-failed", "after write %d failed during op %d %s, op %d %s (retry/continuation) failed: %v", m, i, ops[i], j, ops[j], err)
+				}
+			}
+			if d := node.Diff(e.observe(nd), e.ref(worlds[len(ops)-1]), 5); len(d) > 0 {
+				c.Violation("retried-run-differs", "failed write %d (op %d %s) + retry + rest of script: final node differs from the uninterrupted one:\n%v", m, i, ops[i], d)
+			}
+		}()
+	}
 	if multi {
 		c.Label("has-multi-commit-op")
 	}
@@ -506,7 +615,7 @@ func runCase(rt *rapid.T, c *stats.Case) {
 		for _, o := range ops {
 			s = append(s, o.String())
 		}
-		return map[string]any{"ops": s, "commits": W, "fault_points": ks, "backend": n0.Backend(), "base": e.baseN, "store": map[bool]string{true: "pebblev2", false: "memory"}[e.pebble], "large_classes": len(e.big), "largest_commit_bytes": fs.MaxBatchBytes}
+		return map[string]any{"ops": s, "commits": W, "fault_points": ks, "writes": WR, "write_fault_points": ms, "backend": n0.Backend(), "base": e.baseN, "store": map[bool]string{true: "pebblev2", false: "memory"}[e.pebble], "large_classes": len(e.big), "largest_commit_bytes": fs.MaxBatchBytes}
 	})
 }
 
